@@ -32,6 +32,8 @@ def refname(r):
 
 
 def git(gitdir, *args, check=True, inp=None):
+    if check and not midx_matches_local_packs(gitdir):
+        raise GitRefused("not asked: the multi-pack-index holds offsets of other bytes for a pack of the same name")
     p = subprocess.run(["git", "--git-dir", gitdir, "-c", "gc.auto=0", "-c", "core.commitGraph=true",
                         "-c", "maintenance.auto=false", *args], input=inp,
                        stdout=subprocess.PIPE, stderr=subprocess.PIPE, env=GIT_ENV)
@@ -165,6 +167,47 @@ def idx_names(path):
     n = struct.unpack(">L", d[255 * 4:256 * 4])[0]
     base = 1024
     return [d[base + 24 * i + 4:base + 24 * i + 24].hex() for i in range(n)]
+
+
+def idx_offsets(path):
+    """object name -> offset in the pack, from a pack index file (v1 and v2, small packs)."""
+    with open(path, "rb") as f:
+        d = f.read()
+    if d[:4] == b"\377tOc":
+        n = struct.unpack(">L", d[8 + 255 * 4:8 + 256 * 4])[0]
+        names = 8 + 1024
+        offs = names + 20 * n + 4 * n
+        return {d[names + 20 * i:names + 20 * i + 20].hex(): struct.unpack(">L", d[offs + 4 * i:offs + 4 * i + 4])[0] for i in range(n)}
+    n = struct.unpack(">L", d[255 * 4:256 * 4])[0]
+    return {d[1024 + 24 * i + 4:1024 + 24 * i + 24].hex(): struct.unpack(">L", d[1024 + 24 * i:1024 + 24 * i + 4])[0] for i in range(n)}
+
+
+def midx_matches_local_packs(gitdir):
+    """False if the multi-pack-index records, for a pack that exists here, offsets that are not those of the
+    local file (a midx built for other bytes stored under the same dulwich-style name).  C git follows such
+    offsets and fails in ways that are its own; the harness does not ask git to work on such a directory."""
+    pd = os.path.join(gitdir, "objects", "pack")
+    mp = os.path.join(pd, "multi-pack-index")
+    if not os.path.exists(mp):
+        return True
+    with open(mp, "rb") as f:
+        d = f.read()
+    ch = _chunks(d, 12, d[6])
+    a, b = ch[b"PNAM"]
+    names = [x.decode() for x in d[a:b].split(b"\0") if x]
+    a, b = ch[b"OIDL"]
+    oids = [d[a + 20 * i:a + 20 * i + 20].hex() for i in range((b - a) // 20)]
+    a, b = ch[b"OOFF"]
+    local = {}
+    for i, h in enumerate(oids):
+        pid, off = struct.unpack(">LL", d[a + 8 * i:a + 8 * i + 8])
+        nm = names[pid]
+        if nm not in local:
+            p = os.path.join(pd, nm)
+            local[nm] = idx_offsets(p) if os.path.exists(p) and os.path.exists(p[:-4] + ".pack") else None
+        if local[nm] is not None and local[nm].get(h) != off:
+            return False
+    return True
 
 
 def idx_version(path):
